@@ -49,6 +49,7 @@ struct Harness {
    impl::Translation_unit unit { lex };
    Rng rng;
    std::vector<std::string> words;
+   std::vector<std::string> long_prefix_words;
    std::vector<const Type*> types;
    std::vector<const Expr*> exprs;
    std::vector<const Expr_list*> arglists;
@@ -77,6 +78,18 @@ struct Harness {
       for (int b = 1; b < 256; ++b) words.push_back(std::string(1, char(b)));        // every one-byte spelling (high bytes included)
       words.push_back(std::string("nul\0inside", 10));
       words.push_back(std::string(300, 'w'));
+      // long spellings that continue one another (mangled names, builtins with suffixes): every cut of one 200-byte spelling at
+      // 24..40, 56..72, 120..136 and its full length, entered longest first in one family and shortest first in the other, plus
+      // same-byte fillers of those sizes -- a proper prefix of a known spelling is another spelling
+      for (int fam = 0; fam < 2; ++fam) {
+         std::string longw = fam ? "__builtin_ia32_vfmaddsubps512_mask3_round" : "_ZN3ipr4impl7LexiconC2Ev";
+         while (longw.size() < 200) longw += char('a' + rng.below(26));
+         std::vector<std::size_t> cuts; for (std::size_t lo : { 24u, 56u, 120u }) for (std::size_t k = lo; k <= lo + 16; ++k) cuts.push_back(k);
+         cuts.push_back(200);
+         if (fam) std::reverse(cuts.begin(), cuts.end());
+         for (auto k : cuts) { words.push_back(longw.substr(0, k)); long_prefix_words.push_back(words.back()); }
+      }
+      for (std::size_t k : { 31u, 32u, 33u, 64u, 65u }) words.push_back(std::string(k, 'f'));
       for (int i = 0; i < 40; ++i) { std::string s; int n = 1 + int(rng.below(12)); for (int j = 0; j < n; ++j) s += char('a' + rng.below(26)); words.push_back(s); }
       const Type* b[] = { &L.void_type(), &L.bool_type(), &L.char_type(), &L.int_type(), &L.long_type(), &L.double_type(), &L.typename_type(), &L.class_type() };
       for (auto t : b) types.push_back(t);
@@ -314,6 +327,18 @@ struct Harness {
       }
       ctx().count("string_pool_rollovers_during_name_requests", Inspector::arena_pools(arena) - start);
    }
+   // Spellings that continue one another, through every spelling-keyed constructor, in pool order (one family longest first, the
+   // other shortest first), then all of them again in the opposite order.
+   void continued_spellings()
+   {
+      const int ctors[] = { IDENT, OPER, LOGO, LITERAL, LINKAGE, CONVENTION, SUFFIX };
+      for (int c : ctors) {
+         for (int pass = 0; pass < 2; ++pass) {
+            std::vector<std::string> ws = long_prefix_words; if (pass) std::reverse(ws.begin(), ws.end());
+            for (auto& w : ws) { Req r; r.ctor = c; r.word = w; r.name_word = w; r.type = types[0]; execute(r, int(rng.below(64))); if (!pass) history.push_back(r); ctx().count("spellings_that_continue_a_known_spelling"); }
+         }
+      }
+   }
    // back-to-back get_identifier requests through ONE client String slot that is re-created in place with another spelling
    // each time (nothing else is asked of the Lexicon in between); only spellings the Lexicon already knows
    void recycled_slot_burst()
@@ -460,7 +485,7 @@ static void body(Ctx& C)
           "pairs of a spelling pool; live tables validated through the hook");
    C.assume("the 56 reserved spellings of the pinned tree are the oracle for which identifiers are process-wide constants");
    for (int c = 0; c < NCTOR; ++c) { C.need(std::string("distinct_keys:") + ctor_name[c]); C.need(std::string("re_requests:") + ctor_name[c]); }
-   C.need("spellings_in_an_unterminated_buffer"); C.need("spellings_as_the_front_of_a_longer_buffer"); C.need("string_operands_from_another_lexicon"); C.need("string_operands_free_standing"); C.need("string_operands_in_a_recycled_slot"); C.need("recycled_slot_bursts"); C.need("linkages_asked_through_the_recycled_slot"); C.need("single_identifier_checks"); C.need("reserved_word_checks"); C.need("equality_pairs"); C.need("table_validations");
+   C.need("spellings_in_an_unterminated_buffer"); C.need("spellings_that_continue_a_known_spelling"); C.need("spellings_as_the_front_of_a_longer_buffer"); C.need("string_operands_from_another_lexicon"); C.need("string_operands_free_standing"); C.need("string_operands_in_a_recycled_slot"); C.need("recycled_slot_bursts"); C.need("linkages_asked_through_the_recycled_slot"); C.need("single_identifier_checks"); C.need("reserved_word_checks"); C.need("equality_pairs"); C.need("table_validations");
    C.need("string_pool_rollovers_during_name_requests"); C.need("final_replays"); C.need("symbol_route_label"); C.need("symbol_route_this"); C.need("symbol_route_direct");
    const int histories = C.thorough ? 12 : 3;
    const long long nreq = C.thorough ? 150000 : 6000;
@@ -473,6 +498,7 @@ static void body(Ctx& C)
          else { Req r = H.fresh(); H.execute(r, int(H.rng.below(64))); H.history.push_back(r); }
          if ((i + 1) % 4096 == 0) H.quiescent();
       }
+      H.continued_spellings();
       H.bulk_spellings(C.thorough ? 6 : 2);
       H.replay_all();
       H.recycled_slot_burst();
